@@ -38,6 +38,155 @@ func c13AddNest(rng *rand.Rand, t fsx.Tree) {
 	}
 }
 
+// c13AddStructures adds (a) directories with siblings whose names are the
+// directory's name followed by a byte that sorts before '/', and (b) the
+// build/cache layout that Docker-syntax lists turn into a phantom directory.
+func c13AddStructures(rng *rand.Rand, t fsx.Tree) {
+	file := func(p string) {
+		t[p] = &fsx.Node{Kind: fsx.KFile, Mode: 0o644, Content: fsx.UniqueToken(rng, 40+rng.Intn(1500))}
+	}
+	dir := func(p string) { t[p] = &fsx.Node{Kind: fsx.KDir, Mode: 0o755} }
+	dir("pkg")
+	dir("pkg/scan")
+	dir("pkg/scan/deep")
+	dir("pkg/scan/vendor")
+	for _, f := range []string{"pkg/scan/walk.go", "pkg/scan/deep/x.go", "pkg/scan/deep/y.go", "pkg/scan/vendor/keep.go", "pkg/scan/vendor/junk.go",
+		"pkg/scan.go", "pkg/scan-old", "pkg/scan+x", "pkg/scan x", "pkg/other.go"} {
+		file(f)
+	}
+	if rng.Intn(2) == 0 {
+		dir("pkg/scan.d")
+		file("pkg/scan.d/inner")
+	}
+	for _, b := range []string{"nest0"} {
+		if _, ok := t[b]; ok {
+			file(b + ".bak")
+			file(b + "-old")
+			file(b + "/mid.txt")
+			file(b + "/mid-2")
+		}
+	}
+	dir("build")
+	dir("build/cache")
+	dir("build/cache/sub")
+	for _, f := range []string{"build/top.txt", "build/cache/keep", "build/cache/junk1", "build/cache/sub/junk2", "build/other/o1"} {
+		file(f)
+	}
+}
+
+var prefixSuffixes = []string{" ", "+", "-", ".", ".go", "-old", "+x", " x", "!", "#1", ",v"}
+
+// c13PrefixSiblingEdit edits a file somewhere inside a non-empty baseline
+// directory D and, in the same step, changes (edits, creates or deletes) a
+// sibling of D whose name is D's name plus a suffix starting with a byte below
+// '/'. Only these two paths are reported for it.
+func c13PrefixSiblingEdit(rng *rand.Rand, root string, baseline *core.Entry) (fsx.Edit, fsx.Edit, []string) {
+	none := fsx.Edit{Op: "none"}
+	l := listing(root)
+	var inner []string
+	for p, s := range l {
+		if s.kind != syscall.S_IFREG || strings.Count(p, "/") < 1 || strings.Contains(p, tempPrefix) {
+			continue
+		}
+		ok := true
+		for q := parentOf(p); q != ""; q = parentOf(q) {
+			if e := entryAt(baseline, q); e == nil || e.Kind != core.EntryKind_Directory || len(e.Contents) == 0 {
+				ok = false
+			}
+		}
+		if ok {
+			inner = append(inner, p)
+		}
+	}
+	if len(inner) == 0 {
+		return none, fsx.Edit{}, nil
+	}
+	sort.Strings(inner)
+	f := inner[rng.Intn(len(inner))]
+	// D: any directory above the file
+	comps := strings.Split(f, "/")
+	D := strings.Join(comps[:1+rng.Intn(len(comps)-1)], "/")
+	// the sibling: an existing one if there is, otherwise a new one
+	var sib string
+	var existing []string
+	for p := range l {
+		if strings.HasPrefix(p, D) && len(p) > len(D) && p[len(D)] < '/' && !strings.Contains(p[len(D):], "/") {
+			existing = append(existing, p)
+		}
+	}
+	sort.Strings(existing)
+	if len(existing) > 0 && rng.Intn(3) != 0 {
+		sib = existing[rng.Intn(len(existing))]
+	} else {
+		sib = D + prefixSuffixes[rng.Intn(len(prefixSuffixes))]
+	}
+	// edit inside D
+	full := fullPath(root, f)
+	fi, err := os.Lstat(full)
+	if err != nil {
+		return none, fsx.Edit{}, nil
+	}
+	os.Chmod(full, fi.Mode().Perm()|0o200)
+	if os.WriteFile(full, exactBytes(rng, int(fi.Size())+1+rng.Intn(30)), 0) != nil {
+		return none, fsx.Edit{}, nil
+	}
+	os.Chmod(full, fi.Mode().Perm())
+	fsx.BumpMtime(full)
+	// change the sibling
+	sfull := fullPath(root, sib)
+	op := "create"
+	if sfi, err := os.Lstat(sfull); err == nil {
+		if sfi.Mode().IsRegular() && rng.Intn(3) != 0 {
+			op = "edit"
+			os.WriteFile(sfull, exactBytes(rng, int(sfi.Size())+1+rng.Intn(30)), 0)
+			fsx.BumpMtime(sfull)
+		} else {
+			op = "delete"
+			os.RemoveAll(sfull)
+		}
+	} else {
+		os.WriteFile(sfull, fsx.UniqueToken(rng, 60), 0o644)
+	}
+	return fsx.Edit{Op: "edit-inside-directory", Path: f, Path2: D}, fsx.Edit{Op: "prefix-sibling-" + op, Path: sib, Path2: D}, []string{f, sib}
+}
+
+// c13EditBesidePhantom changes something directly inside a directory that
+// holds a phantom directory (Docker syntax: ignored, but traversed because of
+// an exception below it) in the baseline.
+func c13EditBesidePhantom(rng *rand.Rand, root string, baseline *core.Entry) (fsx.Edit, []string) {
+	var parents []string
+	walkEntry("", baseline, func(p string, e *core.Entry) {
+		if e.Kind != core.EntryKind_Directory {
+			return
+		}
+		for _, c := range e.Contents {
+			if c.Kind == core.EntryKind_PhantomDirectory {
+				parents = append(parents, p)
+				return
+			}
+		}
+	})
+	if len(parents) == 0 {
+		return fsx.Edit{Op: "none"}, nil
+	}
+	d := parents[rng.Intn(len(parents))]
+	if fi, err := os.Lstat(fullPath(root, d)); err != nil || !fi.IsDir() {
+		return fsx.Edit{Op: "none"}, nil
+	}
+	p := join(d, fmt.Sprintf("beside-phantom-%d", rng.Intn(4)))
+	full := fullPath(root, p)
+	if fi, err := os.Lstat(full); err == nil && fi.Mode().IsRegular() && rng.Intn(3) == 0 {
+		os.Remove(full)
+		return fsx.Edit{Op: "delete-beside-phantom", Path: p}, []string{p}
+	}
+	os.RemoveAll(full)
+	if os.WriteFile(full, fsx.UniqueToken(rng, 80), 0o644) != nil {
+		return fsx.Edit{Op: "none"}, nil
+	}
+	fsx.BumpMtime(full)
+	return fsx.Edit{Op: "write-beside-phantom", Path: p}, []string{p}
+}
+
 // c13DeepEdit rewrites a file that lies at least two directory levels below
 // some directory D and returns D as well: the recheck set of the step will
 // hold both D and the file (the directories between them exist, non-empty, in
